@@ -27,6 +27,8 @@ type rawPeer struct {
 	awaiting byte          // reply type a conforming client would wait for before going on (0 = none)
 	awaitTil time.Duration
 	polls    int
+	ownPub   map[uint16]refsn.Pkt // own QoS 1 publishes awaiting PUBACK
+	reused   int
 }
 
 // scheduleOp arms op j at its planned time plus the accumulated shift.
@@ -88,6 +90,13 @@ func (p *rawPeer) send(pk refsn.Pkt, why string) {
 		p.pendReg[pk.MsgID] = pk.TopicName
 	case refsn.DISCONNECT:
 		p.active = false
+	case refsn.PUBLISH:
+		if pk.QoS == 1 && pk.Raw == nil {
+			if p.ownPub == nil {
+				p.ownPub = map[uint16]refsn.Pkt{}
+			}
+			p.ownPub[pk.MsgID] = pk
+		}
 	}
 	if why == "op" && pk.Raw == nil {
 		switch {
@@ -191,6 +200,17 @@ func (p *rawPeer) recv(b []byte) {
 		if pol.QoS2 != "ignore" && pol.QoS2 != "norel" {
 			delete(p.qos2, pk.MsgID)
 			p.send(refsn.Pkt{Type: refsn.PUBCOMP, MsgID: pk.MsgID}, "auto")
+		}
+	case refsn.PUBACK:
+		if orig, ok := p.ownPub[pk.MsgID]; ok {
+			delete(p.ownPub, pk.MsgID)
+			if p.reused < pol.ReuseID {
+				// the id is free again: use it at once
+				p.reused++
+				orig.Data = []byte(fmt.Sprintf("reuse%d", p.reused))
+				orig.Dup = false
+				p.send(orig, "reuse-id")
+			}
 		}
 	case refsn.PUBREC:
 		// our own QoS 2 publish: continue with PUBREL
